@@ -584,18 +584,18 @@ def log_emitters(ctx):
     try:
         emitters = {}
         for lvl in ("CRITICAL", "ERROR", "WARNING", "INFO", "DEBUG"):
-            emitters[f"helper-{lvl}"] = (lambda lvl=lvl: getattr(LL, lvl)("lvf.emit", f"msg-{lvl}", {"A": 1}), [(getattr(pylog, lvl), "lvf.emit", f"msg-{lvl}")])
+            emitters[f"helper-{lvl}"] = (lambda x={}, lvl=lvl: getattr(LL, lvl)("lvf.emit", f"msg-{lvl}", {"A": 1, **x}), [(getattr(pylog, lvl), "lvf.emit", f"msg-{lvl}")])
 
         def body(a=Option("A", 1)):
             return a
 
         d_eff = dataset.nocache(body, effects=[LL.LogEffect(pylog.WARNING, "lvf.effect", "from-effect")])
-        emitters["LogEffect-on-dataset"] = (lambda: d_eff.evaluate({"A": 2}), None)  # + the dataset's own INFO record
+        emitters["LogEffect-on-dataset"] = (lambda x={}: d_eff.evaluate({"A": 2, **x}), None)  # + the dataset's own INFO record
         comp = Computation(Option("A", 1), LL.LogEffect(pylog.ERROR, "lvf.comp", "from-computation"))
-        emitters["LogEffect-in-Computation"] = (lambda: comp.evaluate({}), [(pylog.ERROR, "lvf.comp", "from-computation")])
+        emitters["LogEffect-in-Computation"] = (lambda x={}: comp.evaluate({**x}), [(pylog.ERROR, "lvf.comp", "from-computation")])
         for first in (True, False):
             lg = LL.Logged(Option("A", 1), pylog.INFO, "lvf.logged", f"logged-first={first}", log_first=first)
-            emitters[f"Logged-log_first={first}"] = (lambda lg=lg: lg.evaluate({}), [(pylog.INFO, "lvf.logged", f"logged-first={first}")])
+            emitters[f"Logged-log_first={first}"] = (lambda x={}, lg=lg: lg.evaluate({**x}), [(pylog.INFO, "lvf.logged", f"logged-first={first}")])
         for name, (fn, want) in emitters.items():
             del records[:]
             with Tap() as t:
@@ -614,6 +614,19 @@ def log_emitters(ctx):
                 ctx.violation("log-request-content", f"{name}: observed {reqs}; the effect's record is missing", W)
                 return
             ctx.nontrivial(spec_hash(["log-emitter", name]))
+            # the same emission under a dictionary that switches logging off: whether to drop the record is the
+            # HANDLER's decision, so the request is still issued (and observed) - nothing reaches the logging module
+            del records[:]
+            with Tap() as t:
+                fn({"LABREA": {"LOGGING": {"DISABLED": True}}})
+            reqs_off = [(e[1].level, e[1].name, e[1].msg) for e in t.of("log", "return")]
+            ctx.count("log_emitters_checked_with_logging_switched_off")
+            if records:
+                ctx.violation("log-record-outside-request", f"{name} under LABREA.LOGGING.DISABLED: records still reached the logging module: {records}", W)
+                return
+            if sorted(reqs_off) != sorted(reqs):
+                ctx.violation("log-request-content", f"{name} under LABREA.LOGGING.DISABLED: the pass-through handler observed {reqs_off}; with logging on it observed {reqs}", W)
+                return
     finally:
         root.removeHandler(h)
         root.setLevel(old)
